@@ -87,3 +87,46 @@ Theorem C03_btor2_line_roundtrip : forall (fuel : nat) (S : bytes) (l : line) (c
   exists s' v', srun (next_line fuel s) v = ADone (Ok (Some l), s') v'.
 Proof. exact next_line_roundtrip. Qed.
 Print Assumptions C03_btor2_line_roundtrip.
+
+(* ------------------------------------------------------------------ *)
+(* DIMACS family, whole documents (Layout.v, LayoutProofs.v): write_doc k d is the crate's writer as a function
+   (write_header from the header formats regenerated out of cnf.rs/wcnf.rs/gcnf.rs, then write_clause per clause: optional
+   weight / {group}, literals separated by one space, " 0", LF); it is the rendering in the plain layout, and for every
+   document in the format's domain (doc_ok ih k maxd: with ih = ignore_header = false the header must describe the clause
+   list — the strict-header reading; with ih = true any header) every admissible run of the parser on it, and every
+   concrete run under every schedule and chunk size, returns exactly the document and a clean end. *)
+From Flussab Require Import Consts ReaderProofs Simulation Cnf CnfProofs Hoare CnfSafe Layout LayoutTok LayoutClause LayoutProofs.
+
+Theorem C03_dimacs_writer_is_plain_layout : forall ih k maxd d,
+  doc_ok ih k maxd d = true -> write_doc k d = render k d plain_layout.
+Proof. exact write_doc_is_plain_render. Qed.
+Print Assumptions C03_dimacs_writer_is_plain_layout.
+
+Theorem C03_dimacs_write_parse_roundtrip : forall fuel k maxd ih d r,
+  (maxd <= max_dimacs_isize)%Z -> doc_ok ih k maxd d = true ->
+  (length (write_doc k d) < fuel)%nat -> nlen (write_doc k d) < 2 ^ 62 ->
+  aruns (parse_dimacs fuel k maxd ih lrs_init) (view_init (write_doc k d) None) r ->
+  exists lr' v', r = ADone (Some (d_hdr d), d_items d, FOk, lr') v'.
+Proof. exact write_parse_roundtrip_all_runs. Qed.
+Print Assumptions C03_dimacs_write_parse_roundtrip.
+
+Theorem C03_dimacs_write_parse_roundtrip_concrete : forall fuel k maxd ih d (sr : source) (c : N),
+  (maxd <= max_dimacs_isize)%Z -> doc_ok ih k maxd d = true ->
+  (length (write_doc k d) < fuel)%nat -> nlen (write_doc k d) < 2 ^ 62 ->
+  NoLie (events sr) -> 1 <= c -> stream_of sr = (write_doc k d, None) ->
+  exists lr' s', crun (parse_dimacs fuel k maxd ih lrs_init) (set_chunk (reader_init sr) c)
+                 = CDone (Some (d_hdr d), d_items d, FOk, lr') s'.
+Proof. exact write_parse_roundtrip_concrete. Qed.
+Print Assumptions C03_dimacs_write_parse_roundtrip_concrete.
+
+(* the strict-header behaviour is real: the writer's own output for a header announcing 1 clause followed by 2 clauses is
+   rejected unless the header is ignored *)
+From Flussab Require Import LayoutWitness.
+Theorem C03_dimacs_strict_header_witness :
+  write_doc KCnf w_count = [112; 32; 99; 110; 102; 32; 51; 32; 49; 10; 49; 32; 48; 10; 50; 32; 48; 10] /\
+  run_written KCnf max_dimacs_i32 false w_count =
+    Some (Some (d_hdr w_count), [(0, [1])]%Z, FErr (ESyntax 3 1)) /\
+  run_written KCnf max_dimacs_i32 true w_count = Some (Some (d_hdr w_count), d_items w_count, FOk) /\
+  doc_ok false KCnf max_dimacs_i32 w_count = false /\ doc_ok true KCnf max_dimacs_i32 w_count = true.
+Proof. exact clause_count_is_enforced. Qed.
+Print Assumptions C03_dimacs_strict_header_witness.
